@@ -49,6 +49,12 @@ BOUNDARY = [
      '<p><a href="foo(and(bar))">link</a></p>\n<p><a href="foo(and(bar)">link</a></p>\n<p><a href="foo(and(bar)">link</a></p>'),
     (['[foo *bar](baz*)', '', '*foo [bar* baz]'], '<p><a href="baz*">foo *bar</a></p>\n<p><em>foo [bar</em> baz]</p>'),
     (['![foo *bar*][]', '', '[foo *bar*]: train.jpg "train & tracks"'], '<p><img src="train.jpg" alt="foo bar" title="train &amp; tracks" /></p>'),
+    (['-     foo'], '<ul>\n<li>\n<pre><code>foo\n</code></pre>\n</li>\n</ul>'), (['123456789. ok'], '<ol start="123456789">\n<li>ok</li>\n</ol>'),
+    (['   ```', '   aaa', '    aaa', '  aaa', '   ```'], '<pre><code>aaa\n aaa\naaa\n</code></pre>'), (['    ```', '    aaa', '    ```'], '<pre><code>```\naaa\n```\n</code></pre>'),
+    (['1. a', '', '  2. b', '', '   3. c'], '<ol>\n<li>\n<p>a</p>\n</li>\n<li>\n<p>b</p>\n</li>\n<li>\n<p>c</p>\n</li>\n</ol>'),
+    (['- a', ' - b', '  - c', '   - d', '    - e'], '<ul>\n<li>a</li>\n<li>b</li>\n<li>c</li>\n<li>d\n- e</li>\n</ul>'),
+    (['10) foo', '    - bar'], '<ol start="10">\n<li>foo\n<ul>\n<li>bar</li>\n</ul>\n</li>\n</ol>'), (['10) foo', '   - bar'], '<ol start="10">\n<li>foo</li>\n</ol>\n<ul>\n<li>bar</li>\n</ul>'),
+    (['> # Foo', '> bar', '> baz'], '<blockquote>\n<h1>Foo</h1>\n<p>bar\nbaz</p>\n</blockquote>'), (['>     code', '', '>    not code'], '<blockquote>\n<pre><code>code\n</code></pre>\n</blockquote>\n<blockquote>\n<p>not code</p>\n</blockquote>'),
     (['&nbsp; &amp; &copy; &AElig; &Dcaron;', '', '&#35; &#1234; &#992; &#0;', '', '&nbsp &x; &#; &#x;'],
      '<p>\xa0 &amp; © Æ Ď</p>\n<p># Ӓ Ϡ \ufffd</p>\n<p>&amp;nbsp &amp;x; &amp;#; &amp;#x;</p>'),
 ]
@@ -57,8 +63,12 @@ LEAVES = LEAVES + ['boundary:%d' % i for i in range(len(BOUNDARY))]
 
 def compare(ctx, doc, case, source, key=None):
     ctx.ev()
+    text = doc.text
+    if ctx.case_index % 5 == 0 and text.endswith('\n') and not text.endswith('\n\n'):
+        text = text[:-1]              # the last block of a document need not end in a newline
+        ctx.count('spelling', 'no final newline')
     try:
-        got = mt.html(doc.text)
+        got = mt.html(text)
     except Exception as e:  # noqa
         ctx.violation('raises', mt.exc_site(e), case, text=doc.text, traceback=mt.tb_text(e))
         return False
@@ -129,7 +139,10 @@ def make_leaf(g, rng, kind):
         return [g.para(), g.list_(3, False)]
     if kind.startswith('boundary:'):
         lines, html = BOUNDARY[int(kind.split(':')[1])]
-        return [N('custom', lines=list(lines), html=html)]
+        # blank lines inside a literal block separate top-level blocks unless the block is ONE list whose items they separate
+        one_list = html.startswith(('<ol', '<ul')) and html.endswith(('</ol>', '</ul>')) and html.count('<ol') + html.count('<ul') == html.count('\n<ol') + html.count('\n<ul') + 1 \
+            and not any(l and not l[0].isspace() and not l[0].isdigit() and l[0] not in '-+*' for l in lines)
+        return [N('custom', lines=list(lines), html=html, top_blocks=1 if one_list else 2)]
     raise ValueError(kind)
 
 
